@@ -110,6 +110,7 @@ func init() {
 		Technique:   "timestamping callbacks + consumer log in virtual time (testing/synctest), race detector on",
 		Assumptions: []string{"the fake clock of testing/synctest is the time source the library reads (time.AfterFunc/Since/Now)", "nothing is asserted at exact equality (gap == wait, delta == period): scripts avoid it", "schedules are those the Go runtime produces inside the bubble; thorough tier repeats with varied GOMAXPROCS", "throttle liveness is asserted only for the trailing configuration (as the property states)"}})
 	reg(&propCfg{ID: "C04", Pkg: "./props/c04", Variants: simple(false),
+		Level:       "held on every executed case: complete sweep of all Upsert/Delete sequences up to length 6 (thorough 7; one less for the descending comparator) over keys 0..4 plus seeded random sequences over up to 64 keys (sorted, reversed, random and churn insertion orders, look-ups around deleted two-child nodes, re-inserts); every Delete/Get result compared with a map model and Size, Get of every probe key and the complete Traverse sequence (each key once, current value, comparator order) after the last step (sweep) or every step (random)",
 		Technique:   "reference-model trace monitor (map model) over systematic small-scope sweep + seeded random sequences",
 		Assumptions: []string{"the map model and the generators are trusted", "single goroutine; concurrency is C01/C02"}})
 }
